@@ -3,7 +3,8 @@
 usage: tools/confirm_seed.py <src_dir with patch.diff demo.py meta.json> <seed id e.g. C14-m1> <PID> [more PIDs]"""
 import json, os, shutil, subprocess, sys, tempfile
 src, sid, pids = sys.argv[1], sys.argv[2], sys.argv[3:]
-V = "/verif"
+V = os.environ.get("VERIF_RUN_DIR", "/verif")     # where the checks are run (a private copy avoids rewriting the shared Gen/)
+DST = "/verif"
 wt = tempfile.mkdtemp(prefix="cs-", dir="/tmp")
 os.rmdir(wt)
 def sh(cmd, **kw):
@@ -34,7 +35,7 @@ try:
     r1 = subprocess.run(["/venv/bin/python", dpath], cwd=wt, env=env, stdout=subprocess.PIPE, stderr=subprocess.STDOUT, text=True, timeout=600)
     res["demo_mutated_exit"] = r1.returncode
     shutil.rmtree(ddir)
-    b = sh("%s/tools/baseline.py %s" % (V, wt)); res["baseline"] = b.stdout.strip().split("\n")[0]; res["baseline_ok"] = b.returncode == 0
+    b = sh("%s/tools/baseline.py %s" % (DST, wt)); res["baseline"] = b.stdout.strip().split("\n")[0]; res["baseline_ok"] = b.returncode == 0
     res["checks"] = {}
     for pid in pids:
         for tier in ("quick",):
@@ -50,7 +51,7 @@ finally:
 ok = res.get("demo_clean_exit") == 0 and res.get("demo_mutated_exit", 0) != 0 and res.get("baseline_ok")
 print(json.dumps(res, indent=1))
 if ok:
-    dst = os.path.join(V, "seeded", sid); os.makedirs(dst, exist_ok=True)
+    dst = os.path.join(DST, "seeded", sid); os.makedirs(dst, exist_ok=True)
     shutil.copy(os.path.join(src, "patch.diff"), dst)
     for extra in os.listdir(src):
         if extra.endswith(".py"):
